@@ -809,7 +809,9 @@ def task_runner_step(scratch, tier, seed, logdir):
             r = show(p.ret)
             ev = " ".join(e[0] for e in p.state.events)
             if strict is None:
-                ob.fail("inconclusive", "handle_skipped_site: strict flag not on the path")
+                # a way out of the function that never looked at the flag behaves the same with and
+                # without --strict, which is wrong for one of the two
+                ob.fail("violation", "handle_skipped_site can return without consulting --strict (returns " + r[:60] + ")")
             elif strict:
                 seen.add("strict")
                 if not r.endswith("::Err(move _7)") and "Err(" not in r:
